@@ -17,6 +17,7 @@ import (
 type Shard struct {
 	R      *RNG
 	Index  int
+	NShards int
 	Tier   string
 	Repo   string
 	cases  []string
@@ -141,7 +142,7 @@ func RunSuite(name string, seed uint64, tier, repo, dir string) error {
 	shards := make([]*Shard, nShards)
 	var wg sync.WaitGroup
 	for i := range shards {
-		shards[i] = &Shard{R: NewRNG(seed*1000003 + uint64(i)), Index: i, Tier: tier, Repo: repo, counts: map[string]int{}, sigs: map[string]struct{}{}}
+		shards[i] = &Shard{R: NewRNG(seed*1000003 + uint64(i)), Index: i, NShards: nShards, Tier: tier, Repo: repo, counts: map[string]int{}, sigs: map[string]struct{}{}}
 		wg.Add(1)
 		go func(s *Shard) {
 			defer wg.Done()
